@@ -12,7 +12,7 @@ VARIABLES case, exp, phase
 vars == <<case, exp, phase>>
 ValsOf(dt) == CASE dt = "b1" -> {0, 1}
                 [] IsFlt(dt) -> {<<1, 2>>, <<-3, 1>>, <<0, 0>>}
-                [] Kind(dt) = "u" -> {0, 3, 2 ^ Bits(dt) - 1}
+                [] Kind(dt) = "u" -> {0, 3, IF Bits(dt) <= 16 THEN 2 ^ Bits(dt) - 1 ELSE 60000}      \* TLC integers are 32-bit
                 [] dt \in {"i1", "i2"} -> {-2 ^ (Bits(dt) - 1), 0, 5}
                 [] OTHER -> {-1, 0, 5}
 Vals2(dt) == CASE dt = "b1" -> {0, 1} [] IsFlt(dt) -> {<<1, 2>>, <<-3, 1>>} [] Kind(dt) = "u" -> {0, 3} [] OTHER -> {-1, 2}
